@@ -16,8 +16,8 @@ import time
 
 import vlib
 
-FAMS = ["densepair", "densegroups", "spaced", "waypair", "relpair", "bodies", "params", "shapes", "header"]
-MC_FAMS = ["densepair", "densegroups", "spaced", "waypair", "relpair", "bodies", "params", "shapes"]
+FAMS = ["densepair", "densegroups", "spaced", "waypair", "relpair", "bodies", "params", "shapes", "header", "unsorted"]
+MC_FAMS = ["densepair", "densegroups", "spaced", "waypair", "relpair", "bodies", "params", "shapes", "unsorted"]
 BUGS_QUICK = ["visible", "info", "memid"]
 BUGS_ALL = ["version", "timestamp", "changeset", "uid", "user_sid", "visible", "info", "keyvals", "params", "memid", "waytags", "members"]
 
@@ -94,6 +94,30 @@ def execute(ctx, cases, binname="c01"):
     return recs
 
 
+def big_stage(ctx, for_filter, binname, nontriv):
+    """Real-size blocks (> 8000 elements, several groups per block), described and judged compactly (PbfFormatBig.tla):
+    TLC generates the cases, the harness records the returned elements run-length encoded, PbfFormatBigJudge compares
+    with PbfFormatBig!RunsOf.  Returns the number of scans."""
+    name, cases, r = gen_family(ctx, "big", not ctx.quick(), ctx.seed, module="PbfFormatBigGen",
+                                extra="CONSTANT ForFilter = %s\n" % ("TRUE" if for_filter else "FALSE"))
+    add_run(ctx, "PbfFormatBigGen", "Full=%s ForFilter=%s" % (not ctx.quick(), for_filter), r, count=False)
+    recs = execute(ctx, cases, binname)
+    n = 0
+    for c, rcd in zip(cases, recs):
+        ctx.note_case(c, nontrivial=nontriv(c))
+        n += len(rcd.get("runs", []))
+    judge = lambda rs: vlib.tlc_judge(ctx, "PbfFormatBigJudge", "PbfFormatBigJudge.cfg", rs, shards=1, timeout=2400)
+    vlib.judge_and_confirm(ctx, cases, recs, lambda cs: execute(ctx, cs, binname), judge)
+    ctx.extra["big_block_cases"] = len(cases)
+    return n
+
+
+def big_mc(ctx):
+    """design level for the compact formulation: RunsOf = Compress(Filtered(ExpandFile ...)) on small instances"""
+    r = vlib.tlc("PbfFormatBigMC", "PbfFormatBigMC.cfg", ctx.scratch, workers=1, timeout=1200)
+    return r
+
+
 def nontrivial(c):
     """the file has at least one element (so something is decoded at all)"""
     for b in c["file"]["blocks"]:
@@ -115,6 +139,7 @@ def run(ctx):
         # then the non-vacuity probes one after the other
         mc_main = mcpool.submit(cache_mc, ctx, "none", full, ctx.seed, MC_FAMS, 2 if quick else 4)
         mc_bugs = mcpool.submit(lambda: [cache_mc(ctx, b, False, ctx.seed, ["probe"], 1) for b in bugs])
+        mc_big = mcpool.submit(big_mc, ctx)
         # case generation, one TLC per family
         # case generation: one TLC per group of families (quick: 2 processes; thorough: one per family, 4 at a time)
         groups = [["densepair"], [f for f in FAMS if f != "densepair"]] if quick else [[f] for f in FAMS]
@@ -140,7 +165,9 @@ def run(ctx):
 
         judge = lambda rs: vlib.tlc_judge(ctx, "PbfFormatJudge", "PbfFormatJudge.cfg", rs, shards=min(6, max(1, len(rs) // 1500)), timeout=2400)
         vlib.judge_and_confirm(ctx, cases, recs, lambda cs: execute(ctx, cs), judge)
-        vlib.log("C01: judged by TLC  [t=%.0fs]" % (time.time() - ctx.t0))
+        nscans += big_stage(ctx, False, "c01", lambda c: True)
+        ctx.evaluations = nscans
+        vlib.log("C01: judged by TLC (incl. %d large multi-group blocks)  [t=%.0fs]" % (ctx.extra["big_block_cases"], time.time() - ctx.t0))
 
         bug, r = mc_main.result()
         add_run(ctx, "PbfFormatCache", "Bug=none Full=%s Fams=%s" % (full, ",".join(MC_FAMS)), r)
@@ -151,11 +178,16 @@ def run(ctx):
             if r.violation != "NoInherit":
                 raise vlib.Infra("PbfFormatCache with Bug=%s: expected a NoInherit violation, got rc=%s %s (vacuous invariant?)\n%s"
                                  % (bug, r.rc, r.violation, r.out[-3000:]))
+        r = mc_big.result()
+        add_run(ctx, "PbfFormatBigMC", "PbfFormatBigMC.cfg", r)
+        if not r.ok():
+            raise vlib.Infra("PbfFormatBigMC: RunsAreTheSpec does not hold (rc=%s, %s):\n%s" % (r.rc, r.violation, r.out[-3000:]))
         vlib.log("C01: mechanism model checked  [t=%.0fs]" % (time.time() - ctx.t0))
     ctx.extra["cases_per_family"] = per_fam
     ctx.extra["nonvacuity_probes"] = {b: "NoInherit violated as required" for b in bugs}
     ctx.exhaustive = True
     ctx.rule = ("cases = all abstract files of PbfFormatSpace!Family(f, Full=%s, Seed=%d) for the 9 families, enumerated completely by TLC; "
+                "plus the large multi-group blocks of PbfFormatBig!BigC01Cases (run-length described and judged); the bytes are delivered through bytes.Reader / one byte per Read / seeded small chunks; "
                 "evaluations = scans of the real scanner (file x magnitude profile x decoder count); distinct = distinct abstract files; "
                 "non-trivial = the file holds at least one element" % ("TRUE" if full else "FALSE", ctx.seed))
     ctx.assumptions = [
@@ -170,7 +202,8 @@ def run(ctx):
 def replay(ctx, rp):
     prepare_spec(ctx)
     recs = execute(ctx, [rp["case"]])
-    bad = vlib.tlc_judge(ctx, "PbfFormatJudge", "PbfFormatJudge.cfg", recs, shards=1)
+    mod = "PbfFormatBigJudge" if rp["case"].get("rle") else "PbfFormatJudge"
+    bad = vlib.tlc_judge(ctx, mod, mod + ".cfg", recs, shards=1)
     if bad:
         print("VIOLATION property=C01 replay=(given)  #", json.dumps(bad)[:1500])
         return 1
